@@ -26,7 +26,7 @@ func TestVerifC13(t *testing.T) {
 	defer rep.Write()
 	quick := vh.Quick()
 	const ts = 90000
-	durs := []uint64{1 * ts, 2 * ts, 3 * ts, 4 * ts, 5 * ts, 6 * ts, 8 * ts, 10 * ts, 172800, 180180, 345600}
+	durs := []uint64{1 * ts, 2 * ts, 3 * ts, 4 * ts, 5 * ts, 6 * ts, 7 * ts, 8 * ts, 9 * ts, 10 * ts, ts / 2, 3 * ts / 2, 5 * ts / 2, 9 * ts / 2, 172800, 180180, 345600}
 	horizon := uint64(27*3600) * ts
 	job := 0
 	for _, d := range durs {
@@ -125,6 +125,35 @@ func TestVerifC13(t *testing.T) {
 		}
 	}
 	// invalid N
+	// streams with different N served alternately by one process: the same segment is asked for
+	// N = 1, 2, 3 in turn (state kept between calls must not leak from one stream to the other)
+	if vh.Mine(0) {
+		for _, d := range []uint64{2 * ts, 6 * ts, 172800} {
+			for s := uint64(0); s < 1800*ts; s += d {
+				for N := 1; N <= 3; N++ {
+					em, err := CreateEmsgAhead(s, s+d, ts, N)
+					if err != nil || em == nil {
+						continue
+					}
+					adDur := uint64(10)
+					if N == 1 {
+						adDur = 20
+					}
+					rep.Hit("C13.event")
+					rep.AddExecs(1)
+					si, err := vref.ParseSpliceInfo(em.MessageData)
+					if err != nil {
+						rep.Violate("C13.event", "splice-info-unparsable", err.Error(), nil)
+						continue
+					}
+					if uint64(em.EventDuration) != adDur*ts || si.Duration != adDur*90000 || si.EventID != em.ID {
+						rep.Violate("C13.event", "alternating-streams:inconsistent-event", fmt.Sprintf("d=%d N=%d segment at %d s (asked right after the same segment for another N): emsg duration %d, section break_duration %d, want %d s; ids %d/%d",
+							d, N, s/ts, em.EventDuration, si.Duration, adDur, em.ID, si.EventID), map[string]any{"segStart": s, "segDur": d, "perMinute": N})
+					}
+				}
+			}
+		}
+	}
 	for _, n := range []int{0, 4, -1, 100} {
 		rep.Hit("C13.reject")
 		if _, err := CreateEmsgAhead(0, ts, ts, n); err == nil {
